@@ -16,6 +16,10 @@ from opsim.util import call, weighted
 
 from operon_ai.state.telomere import Telomere, LifecyclePhase as P
 
+class CallbackFault(Exception):
+    """Raised by the fake on_phase_change observer (the caller's own exception)."""
+
+
 ID = "C09"
 LEVEL = "exploration"
 ENGINE = "seq+threads"
@@ -32,8 +36,9 @@ COMPONENTS = {"real": ["operon_ai.state.telomere.Telomere"],
               "stub": ["threading.Lock (SimLock)", "datetime.now (virtual clock)", "phase/senescence callbacks (recorders)",
                        "the OS scheduler (seeded scheduler, threads family)"]}
 ASSUMPTIONS = ["reset() is modelled as re-initialisation", "boundary 'exactly at the time limit' is not asserted",
-               "callbacks do not raise (a raising callback is the caller's own exception)"]
-EXPECT_PROBES = ("phase_SENESCENT", "phase_TERMINATED", "renewed_from_senescent", "timeout_forced",
+               "an exception raised by the on_phase_change observer is the caller's own: the call's return value is not judged, "
+               "but the announced transition must have been committed and later calls must still return"]
+EXPECT_PROBES = ("observer_raised", "phase_SENESCENT", "phase_TERMINATED", "renewed_from_senescent", "timeout_forced",
                  "clock_backward", "tick_before_start", "threads_run", "lin_checked", "preempted_while_holding_a_lock")
 
 # which call may perform a transition is fixed by the statement only for renewal, apoptosis, termination
@@ -81,6 +86,9 @@ def gen(rng, tier, i):
         "life_h": rng.choice([None, None, 1.0, 0.5]),
         "idle_m": rng.choice([None, None, 5.0, 30.0]),
         "silent": rng.random() < 0.85,
+        # on_phase_change collaborator: raises when it is told about a transition into one of these phases
+        "cb_raise": weighted(rng, [(7, []), (1, ["SENESCENT"]), (1, ["TERMINATED"]), (0.7, ["APOPTOTIC"]), (0.7, ["ACTIVE"]),
+                                   (0.6, ["ACTIVE", "SENESCENT", "APOPTOTIC", "TERMINATED"])]),
     }
     depth = rng.randint(2, 7 if tier == "quick" else 12)
     table = [(1.5, "start"), (6, "tick"), (2.5, "err"), (0.7, "hb"), (1.5, "check"), (2, "renew"),
@@ -123,6 +131,8 @@ def simplify(plan):
                 if small < cfg[key]:
                     yield {**plan, "config": {**cfg, key: small}}
         return
+    if cfg.get("cb_raise"):
+        yield {**plan, "config": {**cfg, "cb_raise": []}}
     for key, small in (("life_h", None), ("idle_m", None), ("renewal", True), ("silent", True)):
         if cfg.get(key, small) != small:
             yield {**plan, "config": {**cfg, key: small}}
@@ -315,10 +325,19 @@ def run(plan, k):
     cfg = plan["config"]
     stream = []          # (old, new) announced through on_phase_change
     sen = []
+    cb_raise = cfg.get("cb_raise") or []
+
+    def observer(a, b):
+        stream.append((a.name, b.name))
+        if b.name in cb_raise:
+            k.fault("collab_raise")
+            k.probe("observer_raised")
+            raise CallbackFault(b.name)
+
     t = Telomere(max_operations=cfg["max_ops"], max_lifetime_hours=cfg["life_h"],
                  idle_timeout_minutes=cfg["idle_m"], error_threshold=cfg["err_thr"],
                  allow_renewal=cfg["renewal"],
-                 on_phase_change=lambda a, b: stream.append((a.name, b.name)),
+                 on_phase_change=observer,
                  on_senescence=lambda r: sen.append(r.name), silent=cfg.get("silent", True))
     if isinstance(getattr(t, "_lock", None), SimLock):
         k.probe("subject_lock_is_sim")
@@ -396,6 +415,32 @@ def run(plan, k):
             if out.kind == "step_budget":
                 k.violation("returns", "no_return_within_step_budget", site)
                 return
+            if out.kind == "raised" and isinstance(out.exc, CallbackFault):
+                # the observer's exception is the caller's own; but a transition that was announced has happened:
+                # the lifecycle must be in the phase it announced, and the lock must have been released
+                announced = stream[-1][1] if len(stream) > n0 else before_phase
+                now_phase = t.get_phase().name
+                k.ev("observer_fault", [announced, now_phase])
+                if now_phase != announced:
+                    k.violation("legal_transition", "announced_transition_not_committed", f"{name}:{announced}",
+                                f"observer was told {stream[-1]} and raised; phase is {now_phase}")
+                # bring the reference automaton in line with what was announced, then carry on with the history
+                for (a, b) in stream[n0:]:
+                    k.probe("phase_" + b)
+                    phase_changes += 1
+                if name == "tick" and before_phase not in END:
+                    m_last_act = now
+                if before_phase == "NASCENT" and announced != "NASCENT" and name in ("start", "tick", "err"):
+                    m_started_at = now
+                    m_last_act = now
+                # whether the aborted call had already counted its error is unknown: m_errors stays a lower bound;
+                # an aborted renewal may already have cleared errors and restored length: weaken both bounds
+                if name == "renew":
+                    m_true_ticks = 0
+                    if op[2]:
+                        m_errors = 0
+                m_phase = now_phase
+                continue
             if out.kind == "raised":
                 k.violation("returns", f"raised:{type(out.exc).__name__}", site, repr(out.exc)[:200])
                 return
